@@ -300,7 +300,7 @@ class C20(C.Check):
 
     def gen_cases(self, ctx):
         rng = ctx.rng(20)
-        ncheap, nokl = (18, 4) if ctx.quick else (120, 24)
+        ncheap, nokl = (12, 3) if ctx.quick else (120, 24)
         cases = []
         # deterministic coverage of every response kind first, then random
         kinds = L.RKINDS
